@@ -185,6 +185,17 @@ CLAIMED = {
             "invalid = rejected by jrsonnet_ir_parser; fixed point judged on the generated valid programs (the property's quantifier); debug "
             "build (dprint debug assertions are active)",
             "DESIGN.md section C20"),
+    "C15": ("TLA+ spec Cli (Translate/Outcome/Render of a configuration, pipeline machine with EnteredWhileEvaluating, Deps over import "
+            "graphs, native/import callback outcomes) model-checked by TLC; every enumerated configuration replayed on the jrsonnet "
+            "executable, the library API (harness plumbing) and libjsonnet.so (ctypes, separate process); import graphs replayed on jrsonnet-deps",
+            "TLC enumerates 39k configurations (ext x tla flavour/payload, search path, input mode, 13 output modes, stack limit), 9k "
+            "import graphs and 53 callback cases and checks the pipeline invariant; all single-variable configurations plus a seeded sample of "
+            "the product are run: the library must compute the value the model denotes (or fail where it denotes an error), the "
+            "executable must exit/print/write what Render says with the library's text, libjsonnet must return the same JSON and error flag "
+            "(also through native and import callbacks); jrsonnet-deps must list exactly Deps and every file an evaluation loads",
+            "sample of the configuration product in the quick tier; libjsonnet text compared as JSON; right-most -J wins is assumed; "
+            "JSONNET_PATH and env-var variables are left to C07 / not modelled",
+            "DESIGN.md section C15"),
     "C04": ("TLA+ specs Total (per-thread outcome protocol and histories), Stack (frame counter) and StdSig (boundary "
             "tuples) model-checked by TLC; source texts, every std function x boundary tuples, recursion sweeps and TLC-enumerated "
             "failure histories executed on the implementation and trace-validated against Trace_Total",
